@@ -865,6 +865,25 @@ def units(tier, seed):
         if nJ <= (5 if thorough else 3) and (step == 1 or k % step == 0 or P['fold'] != 'none'):
             us.append(H.Unit('resid-lvl-' + nm, body_resid(P, 'sym'), params=dict(P, lvl='sym'), setup=_setup,
                              min_obligations=2 * nJ + 1, expect_paths=2 ** nJ, timeout_s=600, maxpaths=3000))
+    # --- call history: the same data VALUES evaluated under different masks in one process (a memoised term keyed on
+    #     the values alone would go stale); both evaluations must match their own oracle
+    def body_hist(Ps):
+        bodies = [body_ll(P_) for P_ in Ps] + [body_mn(P_) for P_ in Ps[:1]]
+
+        def body(env):
+            for b_ in bodies:
+                b_(env)
+        return body
+    hshapes = [((5,), [[1, 0, 1, 0, 1], [1, 0, 0, 0, 1], [1, 1, 0, 0, 1]]),
+               ((2, 3), [[1, 0, 1, 0, 0, 1], [1, 0, 0, 0, 0, 1], [1, 0, 0, 1, 0, 1]])]
+    for shape, dms in hshapes:
+        corner = [1] + [0] * (int(np.prod(shape)) - 2) + [1]
+        for order in (dms, dms[::-1]):
+            Ps = [dict(shape=list(shape), mm=corner, dm=dm_, fold='none') for dm_ in order]
+            nJ = sum(int((~joint_of(P_)).sum()) for P_ in Ps)
+            us.append(H.Unit('hist-ll-%s-%s' % ('x'.join(map(str, shape)), '_'.join(''.join(map(str, d_)) for d_ in order)),
+                             body_hist(Ps), params=dict(shape=list(shape), dms=order), setup=_setup,
+                             min_obligations=3 * nJ, expect_paths=1, timeout_s=300, maxpaths=400))
     # --- folded model against unfolded data is rejected
     P = dict(shape=[4], mm=[1, 0, 0, 1], dm=[1, 0, 0, 1], fold='none')
     us.append(H.Unit('fold-mismatch-rejected', body_foldmismatch(P), params=P, setup=_setup, min_obligations=2))
